@@ -187,6 +187,8 @@ def models(tier):
                                "!transition-equations\n  y = k[-1]^alpha * exp(e);\n  c + k = y + (1-delta)*k[-1];\n  1/c = beta*(1/c[+1])*(1 + r[+1] - delta);\n"
                                "  r = alpha*y/k[-1];\n!measurement-variables\n  oy, ok\n!log-variables\n  oy\n!measurement-shocks\n  w\n"
                                "!measurement-equations\n  oy = y*exp(w);\n  ok = 2*c[-1] + 3*log(k[-1]);\n", dict(alpha=0.3, beta=0.95, delta=0.1), False))
+    # a transition shock at a lag (known finding placement:shock_lag: the derivative lands in the column of the CURRENT shock)
+    out.append(PModel("shock_lag", "!transition-variables\n  x\n!transition-shocks\n  e\n!parameters\n  a\n!transition-equations\n  x = a*x[-1] + e + 0.5*e[-1];\n", dict(a=0.5), True))
     if tier == "thorough":
         out.append(PModel("sqrt_ratio", "!transition-variables\n  x, q\n!transition-shocks\n  e\n!parameters\n  g\n!log-variables\n  q\n!transition-equations\n"
                                         "  x = sqrt(x[-1]*x[-1] + 1)/(1 + q) + g*x[+1] + e;\n  q = q[-1]^0.5 * exp(0.1*x[-2]);\n", dict(g=0.2), False))
@@ -450,4 +452,23 @@ def replay_placement(case):
                 d = abs(tot - fd[base_ids.index(eq.id)])
                 if d > worst:
                     worst, msg = d, f"measurement equation {e}, {q2n[q.id]}[{s}]: total coefficient {tot!r} vs finite difference {fd[base_ids.index(eq.id)]!r}"
+    # shocks: D and J carry the derivative w.r.t. the CURRENT shock; a shock occurring at any other shift has no column at all
+    ut = [t.qid for t in sv.transition_shocks]
+    wt = [t.qid for t in sv.measurement_shocks]
+    for q in inv.quantities:
+        if "SHOCK" not in str(q.kind) or "ANTICIPATED" in str(q.kind):
+            continue
+        for s in range(min_shift, max_shift + 1):
+            c = T0 + s
+            h = 1e-6
+            dp, dm = data.copy(), data.copy()
+            dp[q.id, c] += h; dm[q.id, c] -= h
+            fd = (resid(dp) - resid(dm)) / (2 * h)
+            for eqs, M, cols in ((teqs, system.D, ut), (meqs, system.J, wt)):
+                for e, eq in enumerate(eqs):
+                    tot = sum(M[e, k] for k, qid in enumerate(cols) if qid == q.id) if s == 0 else 0.0
+                    d = abs(tot - fd[base_ids.index(eq.id)])
+                    if d > worst:
+                        worst, msg = d, (f"equation {eq.human}: derivative w.r.t. {q2n[q.id]}[{s}] is {fd[base_ids.index(eq.id)]!r} but the system carries {tot!r}"
+                                         + (" (a shifted shock has no column)" if s != 0 else ""))
     return worst > 1e-5, msg
